@@ -182,6 +182,9 @@ def gen_tu(ti, rnd, units, leaves, ntrees):
         one = rnd.choice([("int", 1), ("mdiv", ("int", k1), ("int", k1)), ("mmul", ("mroot", ("int", k1), 2), ("mpow", ("mroot", ("int", k1), 2), -1)),
                           ("mdiv", ("mmul", ("pi",), ("int", k1)), ("mmul", ("int", k1), ("pi",)))])
         group.append(("one", "unit", ("scale", t, one, rnd.choice("*/"))))
+        # a zeroth power is the empty product: multiplying by it must leave the very same type
+        z = ("leaf", rnd.choice(names)) if rnd.random() < 0.6 else ("scale", ("leaf", rnd.choice(names)), ("int", rnd.choice([3, 1000])), "*") if rnd.random() < 0.5 else ("prefix", rnd.choice(model.PREFIXES)[0], ("leaf", rnd.choice(names)))
+        group.append(("pow0", "unit", (rnd.choice(["mul", "div"]), t, ("pow", z, 0)) if rnd.random() < 0.7 else ("mul", ("pow", z, 0), t)))
         col = collapse_powers(t, leaves)
         if col is not None and model.ev(col, leaves).key() == model.ev(t, leaves).key():
             group.append(("collapsed", "unit", col))
